@@ -159,6 +159,8 @@ def run(ctx):
 
     # ------------------------------------------------------------ R2 per-modifier conversions
     _unit_modifiers(ctx, r2, bm, ps)
+    r5 = ctx.rule("C18.R5", "ROUNDTRIP: writer and reader COMPOSED by interpretation (XML elements and the ROOT histogram store are modelled; numbers travel as text and back): a channel with two samples carrying all seven modifier types, its observation and a measurement with a fixed luminosity, a configured normalisation factor and a fixed constrained parameter are written by build_channel / build_measurement and read by process_channel / process_measurements; channel name, observation, sample names and yields, every modifier with its data, the POI, the luminosity value and width, the normfactor settings and the constant flags must come back (positive and negative yields)", "ROUNDTRIP", floor=2)
+    _roundtrip(ctx, r5, repo)
 
     # ------------------------------------------------------------ R3
     prefixes = None
@@ -481,3 +483,135 @@ def _unit_modifiers(ctx, rid, bm, ps):
             ctx.violated(rid, bm, "NormFactor Val/Low/High", "normalisation-factor start value and bounds are not written/read under Val, Low, High consistently", found=f"writer {wsrc}, reader {rmap}")
     except (StopIteration, ValueError, AttributeError) as e:
         ctx.unrecognised(rid, bm, "NormFactor", f"{type(e).__name__}: {e}")
+
+
+def _roundtrip(ctx, rid, repo):
+    import re as _re
+    from fractions import Fraction as _F
+    from .. import xmlmodel
+    from ..alg import AutoRegion, NotHandled, same_value
+    from ..objmodel import World
+    at = Poly.atom
+    wfuncs = ("build_measurement", "build_modifier", "build_sample", "build_data", "build_channel", "_make_hist_name")
+    rfuncs = ("process_channel", "process_sample", "process_data", "process_measurements")
+    for n in wfuncs:
+        ctx.touch(repo.func(W, n))
+    for n in rfuncs:
+        ctx.touch(repo.func(R, n))
+
+    def mk_world(store, region):
+        ext = xmlmodel.externals(store)
+
+        def rxm(m):
+            return None if m is None else Obj("match", {"groups": [m.group(0)] + list(m.groups())})
+
+        def group(recv, a, k):
+            if not (isinstance(recv, Obj) and "groups" in recv.attrs):
+                raise NotHandled()
+            return recv.attrs["groups"][int(to_poly(a[0]).const_value()) if a else 0]
+
+        ext.update({"search": lambda a, k: rxm(_re.search(a[0], a[1])), "match": lambda a, k: rxm(_re.match(a[0], a[1])), ".group": group})
+        w = World(ext, region=region, module_env={"ET": Obj("ET"), "np": Obj("np"), "log": Obj("log"), "_ROOT_DATA_FILE": Obj("rootfile", {"file_path": "data.root"}), "compat": Obj("compat"), "re": Obj("re"), "tqdm": Obj("tqdm")})
+        for n in wfuncs:
+            w.add_func(repo.func(W, n))
+        for n in rfuncs:
+            w.add_func(repo.func(R, n))
+        w.add_func(repo.func(C, "interpret_rootname"))
+        return w
+
+    def spec():
+        return {"channels": [{"name": "ch", "samples": [
+            {"name": "s1", "data": [at("n0"), at("n1")], "modifiers": [
+                {"name": "mu", "type": "normfactor", "data": None},
+                {"name": "pileup_a", "type": "normsys", "data": {"lo": at("NLO"), "hi": at("NHI")}},
+                {"name": "hs", "type": "histosys", "data": {"lo_data": [at("l0"), at("l1")], "hi_data": [at("h0"), at("h1")]}},
+                {"name": "lumi", "type": "lumi", "data": None}]},
+            {"name": "s2", "data": [at("m0"), at("m1")], "modifiers": [
+                {"name": "staterror_ch", "type": "staterror", "data": [at("e0"), at("e1")]},
+                {"name": "ss", "type": "shapesys", "data": [at("u0"), at("u1")]},
+                {"name": "sf", "type": "shapefactor", "data": None}]}]}],
+            "observations": [{"name": "ch", "data": [at("o0"), at("o1")]}],
+            "measurements": [{"name": "meas", "config": {"poi": "mu", "parameters": [
+                {"name": "lumi", "auxdata": [at("L")], "sigmas": [at("S")], "bounds": [[at("LB"), at("UB")]], "inits": [at("L")], "fixed": True},
+                {"name": "mu", "inits": [at("V")], "bounds": [[at("MLO"), at("MHI")]]},
+                {"name": "pileup_a", "fixed": True}]}}],
+            "version": "1.0.0"}
+
+    def same(a, b):
+        if isinstance(a, (list, tuple)) and isinstance(b, (list, tuple)):
+            return len(a) == len(b) and all(same(x, y) for x, y in zip(a, b))
+        if isinstance(a, dict) and isinstance(b, dict):
+            return sorted(a) == sorted(b) and all(same(a[k], b[k]) for k in a)
+        if a is None or b is None or isinstance(a, (str, bool)) or isinstance(b, (str, bool)):
+            return a == b
+        return same_value(a, b) is True
+
+    def show(v):
+        if isinstance(v, (list, tuple)):
+            return [show(x) for x in v]
+        if isinstance(v, dict):
+            return {k: show(x) for k, x in v.items()}
+        if v is None or isinstance(v, (str, bool)):
+            return v
+        return str(to_poly(v))
+
+    for lab, reps in (("all yields positive", {}), ("one yield negative", {"m1": _F(-3), "n0": _F(-2)})):
+        site = f"{W} -> {R} [{lab}]"
+        region = AutoRegion()
+        region.update(reps)
+        sp = spec()
+        store = {}
+        w = mk_world(store, region)
+        try:
+            ch = w.call_func(repo.func(W, "build_channel"), [sp, sp["channels"][0], sp["observations"]])
+            name, obs, samples, pconfigs = w.call_func(repo.func(R, "process_channel"), [ch, Obj("resolver")])
+            mtypes = {m["name"]: m["type"] for c_ in sp["channels"] for s_ in c_["samples"] for m in s_["modifiers"]}
+            me = w.call_func(repo.func(W, "build_measurement"), [sp["measurements"][0], mtypes])
+            top = xmlmodel.Elem("Combination")
+            top.children.append(me)
+            meas = w.call_func(repo.func(R, "process_measurements"), [top], {"other_parameter_configs": pconfigs})
+        except (Undecided, KeyError, TypeError, ValueError, IndexError, AttributeError) as e:
+            ctx.unrecognised(rid, repo.func(W, "build_channel"), f"round trip [{lab}]", f"not interpretable: {type(e).__name__}: {e}")
+            continue
+        orig = spec()
+        problems = []
+        if name != "ch":
+            problems.append(("channel name", "ch", name))
+        if not same(obs, orig["observations"][0]["data"]):
+            problems.append(("observation", show(orig["observations"][0]["data"]), show(obs)))
+        got_s = {s_["name"]: s_ for s_ in samples}
+        for os_ in orig["channels"][0]["samples"]:
+            gs = got_s.get(os_["name"])
+            if gs is None:
+                problems.append((f"sample {os_['name']}", "present", "missing"))
+                continue
+            if not same(gs["data"], os_["data"]):
+                problems.append((f"yields of {os_['name']}", show(os_["data"]), show(gs["data"])))
+            gm = {(m["name"], m["type"]): m["data"] for m in gs["modifiers"]}
+            om = {(m["name"], m["type"]): m["data"] for m in os_["modifiers"]}
+            if sorted(gm) != sorted(om):
+                problems.append((f"modifiers of {os_['name']}", sorted(om), sorted(gm)))
+            for key_ in om:
+                if key_ in gm and not same(gm[key_], om[key_]):
+                    problems.append((f"data of {key_[1]} {key_[0]} on {os_['name']}", show(om[key_]), show(gm[key_])))
+        if len(meas) != 1:
+            problems.append(("measurements", 1, len(meas)))
+        else:
+            cfgm = meas[0]["config"]
+            if meas[0]["name"] != "meas" or cfgm["poi"] != "mu":
+                problems.append(("measurement name / POI", "meas / mu", f"{meas[0]['name']} / {cfgm['poi']}"))
+            pars = {p_["name"]: p_ for p_ in cfgm["parameters"]}
+            lum = pars.get("lumi", {})
+            if not (same(lum.get("auxdata"), [at("L")]) and same(lum.get("sigmas"), [at("S")]) and same(lum.get("inits"), [at("L")])):
+                problems.append(("luminosity value / width", "auxdata [L], sigmas [S], inits [L]", show({k: lum.get(k) for k in ("auxdata", "sigmas", "inits")})))
+            fixed_got = sorted(n for n, p_ in pars.items() if p_.get("fixed") is True)
+            if fixed_got != ["lumi", "pileup_a"]:
+                problems.append(("constant parameters", ["lumi", "pileup_a"], fixed_got))
+            mu = pars.get("mu", {})
+            if not (same(mu.get("inits"), [at("V")]) and same(mu.get("bounds"), [[at("MLO"), at("MHI")]])):
+                problems.append(("normfactor settings", "inits [V], bounds [[MLO, MHI]]", show({k: mu.get(k) for k in ("inits", "bounds")})))
+        if problems:
+            what, exp, got = problems[0]
+            ctx.violated(rid, repo.func(W, "build_channel") if "measurement" not in what and "luminosity" not in what and "constant" not in what else repo.func(W, "build_measurement"), f"round trip: {what} [{lab}]", f"export followed by import does not give back the {what}" + (f" (and {len(problems) - 1} more difference(s))" if len(problems) > 1 else ""), expected=str(exp), found=str(got))
+        else:
+            ctx.holds(rid, site, "channel, observation, 2 samples, 7 modifiers with data, POI, luminosity, normfactor settings, constant flags all recovered")
